@@ -14,6 +14,7 @@ import (
 	"context"
 	"fmt"
 	"math/rand"
+	"os"
 	"sort"
 	"strconv"
 	"strings"
@@ -210,10 +211,14 @@ func runOrderCase(caseNo int, r *rand.Rand, sum *sumT) [][2]string {
 			id := ids[r.Intn(len(ids))]
 			target([]uint32{id})
 			// an RPC blocks until answered: on a slow node that is fine (bounded delay)
-			_, _ = sh.node(id).GRPCCall(ctx, req)
+			if _, err := sh.node(id).GRPCCall(ctx, req); err != nil && os.Getenv("HX_DEBUG") != "" {
+				fmt.Fprintf(os.Stderr, "DEBUG case=%d serial=%d rpc node=%d err=%v\n", caseNo, serial, id, err)
+			}
 		case "qc":
 			target(ids)
-			_, _ = cfg.QuorumCall(ctx, req)
+			if _, err := cfg.QuorumCall(ctx, req); err != nil && os.Getenv("HX_DEBUG") != "" {
+				fmt.Fprintf(os.Stderr, "DEBUG case=%d serial=%d qc err=%s\n", caseNo, serial, strings.ReplaceAll(err.Error(), "\n", "/"))
+			}
 		case "qc-pn":
 			target(ids)
 			_, _ = cfg.QuorumCallPerNodeArg(ctx, req, pn)
